@@ -148,6 +148,7 @@ theorem HistRes.setRecording {w : World} (kind idx : Nat) (on : Bool) (h : HistR
 
 theorem HistRes.preserved : Preserved (fun w => TimeOk w.ev ∧ HistRes w) := by
   refine Preserved.withTime (fun hs h => HistRes.of_eq hs.1 hs.2.2.2.2.2.1 h) ?_ ?_ ?_ ?_
+    (fun w p f h => HistRes.of_eq (by simp) (by simp) h)
   · intro w ev' n hle h
     exact ArrAll.mono h (fun x ok => ok.mono _ hle)
   · intro w p c h
